@@ -6,6 +6,20 @@ HERE = os.path.dirname(os.path.dirname(os.path.abspath(__file__)))
 TECH = 'deterministic simulation with fault injection: seeded search over operation/fault/schedule traces, '
 
 CLAIMED = {
+    'C03': dict(
+        technique=TECH + 'recorded RHS-call history of the real solver loops checked against exact solver/storage '
+                         'laws and a reference integrator; RHS fault injection',
+        text='Every RHS evaluation of CircuitTemplate.run is recorded through the decorator= seam and the history is '
+             'checked event by event: evaluation count and clock, bit-exact Euler/Heun step law in the run dtype, '
+             'stored rows == iterates by column label, time axis, cutoff row set, vector field == reference network '
+             '(RefNet) at every evaluation, adaptive solvers against a replica (scipy with identical settings on the '
+             'reference field, 1e-9) and a DOP853 rtol=1e-12 reference within a calibrated tolerance; injected RHS '
+             'exceptions must propagate. Seeded sampling of (model, dt, sampling ratio, rows, cutoff, solver, '
+             'precision, vectorize, inputs); evidence, not proof.',
+        note='Trusted: numpy/scipy, the RefNet reference semantics of the five library operators, DOP853@1e-12 as '
+             'ground truth. Default (numpy) backend in the quick tier; other backends in the thorough tier where '
+             'built. Known findings KF-C03-* are listed in known_findings.json.',
+        ref='§3 C03'),
     'C19': dict(
         technique=TECH + 'stateful machine on the real DDEHistory vs a pure-Python reference history',
         text='Seeded exploration of update/query/caller-mutation/allocation-fault histories on the real DDEHistory '
@@ -18,7 +32,7 @@ CLAIMED = {
 }
 
 _P = 'check under construction in this session (planned as claimed, see DESIGN §0/§3); not decided yet'
-PENDING = {k: _P for k in ['C03', 'C07', 'C08', 'C09', 'C10', 'C11', 'C13', 'C14', 'C15']}
+PENDING = {k: _P for k in ['C07', 'C08', 'C09', 'C10', 'C11', 'C13', 'C14', 'C15']}
 
 NA = {
     'C01': 'pure function of (model, state, parameters): no schedule, clock, fault or history in the statement; '
